@@ -335,7 +335,8 @@ def labels_case():
             def copy(self, **kw):
                 pd = v["phi_dot"] if kw.get("frame") == "F" else v["own_dot"]
                 ph = v["phi"] if kw.get("frame") == "F" else v["own_dot"]
-                return types.SimpleNamespace(phi=ph, phi_dot=pd, r_dot=pd, theta=0)
+                an = v["phi"] if (kw.get("frame") == "F" and kw.get("form") == "keplerian_mean") else v["own_dot"]
+                return types.SimpleNamespace(phi=ph, phi_dot=pd, r_dot=pd, theta=0, M=an)
 
         class O:
             event = None
@@ -353,6 +354,7 @@ def labels_case():
         ndf = ls.NodeListener(frame="F").info(OF()).info
         watched = ls.NodeListener(frame="F")(OF())
         aps = ls.ApsideListener(frame="F")(OF())
+        ano = ls.AnomalyListener(0, "mean", frame="F")._convert(OF())
         rad = ls.RadialVelocityListener("F")(OF())
         chk = mx.check(O())
         up = bool(v["phi_dot"] > 0)
@@ -362,11 +364,12 @@ def labels_case():
                 "desc_iff_falling_in_watched_frame": 1 if (ndf == "Desc Node") == ndown else 0,
                 "node_quantity_is_watched_latitude": watched - v["phi"] + 1,
                 "apside_quantity_is_watched_radial_rate": aps - v["phi_dot"] + 1,
+                "anomaly_read_in_watched_frame_and_form": ano - v["phi"] + 1,
                 "radial_quantity_is_watched_radial_rate": rad - v["phi_dot"] + 1,
                 "max_needs_visible_and_not_rising": 1 if ((not chk) or visible_descending) else 0}
 
     def ref(env, v, out):
-        return {"aos_iff_rising": 1, "desc_iff_falling": 1, "desc_iff_falling_in_watched_frame": 1, "node_quantity_is_watched_latitude": 1, "apside_quantity_is_watched_radial_rate": 1,
+        return {"aos_iff_rising": 1, "desc_iff_falling": 1, "desc_iff_falling_in_watched_frame": 1, "node_quantity_is_watched_latitude": 1, "apside_quantity_is_watched_radial_rate": 1, "anomaly_read_in_watched_frame_and_form": 1,
                 "radial_quantity_is_watched_radial_rate": 1, "max_needs_visible_and_not_rising": 1}
     return Case("labels", ins, run, ref, timeout=60, maxpaths=400, tol=0, abs_tol=0.5,
                 desc="AOS iff the elevation rate is positive (LOS otherwise), Desc Node iff the latitude rate in the watched frame (NodeListener(frame=)) is negative, a MAX event is "
